@@ -257,7 +257,7 @@ func (x *Exec) mapUpdate(fr *Frame, st *State, ins *ssa.MapUpdate) error {
 		return err
 	}
 	x.obligation(fr, ins, "nil", st.PC, Not(Eq(m.T, BVInt(0, 32))), "assignment to entry in nil map")
-	x.C.Assume(Implies(st.PC, Not(Eq(m.T, BVInt(0, 32)))), "continuing past nil-map check")
+	x.C.Assume(Implies(x.absPC(st.PC),Not(Eq(m.T, BVInt(0, 32)))), "continuing past nil-map check")
 	return x.mapSet(st, ins.Map.Type(), m.T, k.T, v.T)
 }
 
